@@ -152,6 +152,14 @@ func Load(dir string, overlay map[string][]byte) (*Eng, error) {
 			e.byName[fn.String()] = fn
 		}
 	}
+	// generic instances are also reachable under their origin's name (first instance in order)
+	for _, fn := range e.allFuncs {
+		if o := fn.Origin(); o != nil {
+			if _, dup := e.byName[o.String()]; !dup {
+				e.byName[o.String()] = fn
+			}
+		}
+	}
 	for _, fn := range e.allFuncs {
 		for _, b := range fn.Blocks {
 			for _, in := range b.Instrs {
